@@ -198,6 +198,22 @@ def model_fam(name):
 TYPES = ["INT", "INTX", "INTP", "STRING", "FLOAT", "PATH"]
 
 
+def range_text(n, variant):
+    """a range expression with exactly n values (counted here, by construction), in one of several spellings"""
+    if n < 4 or variant == 0:
+        return f"1-{n}" if n > 1 else "1"
+    if variant == 1:                       # stepped, written end off the grid
+        return f"0-{3 * (n - 1) + 2}:3"
+    if variant == 2:                       # two stepped pieces; the first one's written end is off its grid and the
+        k = n // 2                         # second starts one step after that written end (NOT after the last value)
+        a_end = 3 * (k - 1) + 2
+        b0 = a_end + 3
+        return f"0-{a_end}:3,{b0}-{b0 + 3 * (n - k - 1) + 1}:3"
+    if variant == 3:                       # downwards
+        return f"{n}-1:-1"
+    return f"1,3-{n},2"                    # pieces out of order that merge into one
+
+
 def skeleton(params, comb):
     """params: list of (name, kind, length).  Returns (template dict, job parameter values)."""
     defs, jp, jv = [], [], {}
@@ -205,7 +221,7 @@ def skeleton(params, comb):
         if kind == "INT":
             d = {"name": name, "type": "INT", "range": list(range(1, n + 1))}
         elif kind == "INTX":
-            d = {"name": name, "type": "INT", "range": f"1-{n}" if n > 1 else "1"}
+            d = {"name": name, "type": "INT", "range": range_text(n, (i + n) % 5)}
         elif kind == "INTP":
             d = {"name": name, "type": "INT", "range": "1-{{Param.L%d}}" % i}
             jp.append({"name": "L%d" % i, "type": "INT"})
